@@ -592,6 +592,14 @@ func cmdCheck(args []string) int {
 		}
 	}
 
+	if c.Scenarios != nil && vacuous == "" {
+		for _, k := range c.MustSucceed {
+			if merged.OKByKind[k] == 0 {
+				vacuous = fmt.Sprintf("vacuous exploration: operation kind %q never succeeded", k)
+			}
+		}
+	}
+
 	// evidence
 	cov := map[string]interface{}{
 		"rule":       c.Rule,
